@@ -138,6 +138,9 @@ struct Ibb {
     long bs = 0;     // open
     long seq = 0;    // data (as written on the wire)
     QByteArray payload;
+    bool raw = false;     // data: `rawText` is written as the element text instead of base64(payload)
+    QString rawText;
+    bool spaced = false;  // data: the base64 text is broken up with white space
 };
 
 static std::string showPending(const std::optional<Ibb> &p)
@@ -246,8 +249,10 @@ static World *W = nullptr;
 struct Transfer {
     int bsS, bsR;
     bool withHash;
+    bool withSize = true;
     QByteArray data;
     QString sidStr;
+    std::vector<QString> sentIds;  // ids of the XEP-0047 requests the sending client emitted, in order
     QBuffer sendBuf;
     Sink sink;
     QXmppTransferJob *sj = nullptr, *rj = nullptr;
@@ -263,6 +268,8 @@ struct Transfer {
     bool sawRSuccessWrong = false;
     bool altered = false;  // a payload was altered in transit / a block was forged in the sender's name with its session id
     bool dupRefused = false;
+    std::string faultKind;        // the op of the (last) fault that hit a data block
+    bool senderIgnoredError = false, senderMovedOnForeignAck = false;
     static int counter;
 
     Transfer(int bS, int bR, bool hash, const QByteArray &d, DevSpec dev) : bsS(bS), bsR(bR), withHash(hash), data(d), sink(dev) { }
@@ -287,7 +294,7 @@ struct Transfer {
         W->incoming = nullptr;
         QXmppTransferFileInfo info;
         info.setName(QStringLiteral("file.bin"));
-        info.setSize(data.size());
+        info.setSize(withSize ? data.size() : 0);  // 0 = no size attribute in the offer (sequential source of unknown length)
         if (withHash) info.setHash(QCryptographicHash::hash(data, QCryptographicHash::Md5));
         sj = W->s.mgr->sendFile(RJID, &sendBuf, info, sidStr);
         if (!sj) return false;
@@ -300,7 +307,7 @@ struct Transfer {
             while (!W->s.out.empty() && !pending) {
                 QString x = W->s.out.front(); W->s.out.pop_front();
                 moved = true;
-                if (auto p = asIbb(x)) { pending = p; break; }
+                if (auto p = asIbb(x)) { pending = p; sentIds.push_back(p->id); break; }
                 forward(x, SJID, W->r);
             }
             while (!W->r.out.empty()) {
@@ -324,7 +331,7 @@ struct Transfer {
     {
         QDomDocument doc;
         QDomElement e = parseStanza(xml, doc);
-        e.setAttribute(QStringLiteral("from"), from);
+        if (!e.hasAttribute(QStringLiteral("from"))) e.setAttribute(QStringLiteral("from"), from);
         to.client.receive(e);
     }
 
@@ -350,6 +357,15 @@ struct Transfer {
         return i;
     }
 
+    static QString dataText(const Ibb &i)
+    {
+        if (i.raw) return i.rawText.toHtmlEscaped();
+        QString b64 = QString::fromLatin1(i.payload.toBase64());
+        if (!i.spaced) return b64;
+        QString out = QStringLiteral("\n  ");
+        for (int k = 0; k < b64.size(); k++) { out += b64[k]; if (k % 4 == 3) out += QStringLiteral("\n\t "); }
+        return out + QStringLiteral(" ");
+    }
     QString render(const Ibb &i) const
     {
         const QString from = i.sender == 0 ? SJID : thirdJid(i.sender);
@@ -360,7 +376,7 @@ struct Transfer {
             return head + QStringLiteral("<open xmlns=\"%1\" sid=\"%2\" block-size=\"%3\"/></iq>").arg(QLatin1String(NS_IBB), sid).arg(i.bs);
         case Ibb::Data:
             return head + QStringLiteral("<data xmlns=\"%1\" sid=\"%2\" seq=\"%3\">%4</data></iq>")
-                              .arg(QLatin1String(NS_IBB), sid).arg(i.seq).arg(QString::fromLatin1(i.payload.toBase64()));
+                              .arg(QLatin1String(NS_IBB), sid).arg(i.seq).arg(dataText(i));
         case Ibb::Close:
             return head + QStringLiteral("<close xmlns=\"%1\" sid=\"%2\"/></iq>").arg(QLatin1String(NS_IBB), sid);
         }
@@ -399,11 +415,21 @@ struct Transfer {
     {
         W->s.out.clear();
         forward(replyXml, RJID, W->s);
+        // sender-side oracle: an error response of the peer to the request in flight must end the job with an error
+        bool peerError = false;
+        {
+            QDomDocument doc;
+            QDomElement e = parseStanza(replyXml, doc);
+            const QString from = e.hasAttribute(QStringLiteral("from")) ? e.attribute(QStringLiteral("from")) : RJID;
+            peerError = e.attribute(QStringLiteral("type")) == QLatin1String("error") && from == RJID && !sentIds.empty() &&
+                e.attribute(QStringLiteral("id")) == sentIds.back() && sj->state() != QXmppTransferJob::FinishedState;
+        }
         for (auto &x : W->s.out) {
-            if (auto p = asIbb(x)) pending = p;
+            if (auto p = asIbb(x)) { pending = p; sentIds.push_back(p->id); }
             else { fprintf(stderr, "harness: unexpected stanza from sender: %s\n", qPrintable(x)); exit(3); }
         }
         W->s.out.clear();
+        if (peerError && !(sj->state() == QXmppTransferJob::FinishedState && sj->error() != QXmppTransferJob::NoError)) senderIgnoredError = true;
     }
     void feed(const std::vector<Reply> &rs) { for (auto &rp : rs) if (rp.to == 0) toSender(rp.xml); }
     QString forgedAck(const Ibb &i) const
@@ -441,6 +467,7 @@ struct Transfer {
         stat("op_" + w);
         const bool onData = pending && pending->kind == Ibb::Data;
         const int faultsBefore = faults + harmlessDups;
+        const int faultsOnlyBefore = faults;
         if (w == "deliver") {
             if (pending) { Ibb p = *pending; pending.reset(); feed(toReceiver(p)); }
         } else if (w == "run") {
@@ -452,6 +479,39 @@ struct Transfer {
             replies.clear();
             std::string o = observe();
             return "ok" + std::to_string(ok) + ",err" + std::to_string(bad) + o.substr(o.find('|'));
+        } else if (w == "deliverws") {
+            // honest delivery with the base64 text broken up by white space (not a fault)
+            if (pending) { Ibb p = *pending; pending.reset(); p.spaced = true; feed(toReceiver(p)); }
+        } else if (w == "lose") {
+            if (pending) { pending.reset(); if (onData) faults++; }
+        } else if (w == "rinj") {
+            long o = 0, b = 0; std::string cond; is >> o >> b >> cond;
+            const long idx = long(sentIds.size()) - b;
+            const QString id = idx >= 1 ? sentIds[size_t(idx - 1)] : QStringLiteral("chan-none");
+            const QString from = o == 0 ? RJID : thirdJid(int(o));
+            QString xml = QStringLiteral("<iq id=\"%1\" to=\"%2\" from=\"%3\" type=\"%4\">").arg(id, SJID, from, cond == "ok" ? QStringLiteral("result") : QStringLiteral("error"));
+            if (cond != "ok") xml += QStringLiteral("<error type=\"cancel\"><%1 xmlns=\"urn:ietf:params:xml:ns:xmpp-stanzas\"/></error>").arg(QString::fromStdString(cond));
+            xml += QStringLiteral("</iq>");
+            const qint64 doneBefore = sDone; const std::string pendBefore = showPending(pending);
+            const auto stateBefore = sj->state();
+            toSender(xml);
+            if ((o != 0 || b != 0) && (sDone != doneBefore || showPending(pending) != pendBefore || sj->state() != stateBefore)) senderMovedOnForeignAck = true;
+        } else if (w == "pclose") {
+            W->s.out.clear();
+            W->s.receiveXml(QStringLiteral("<iq id=\"peer-close\" to=\"%1\" from=\"%2\" type=\"set\"><close xmlns=\"%3\" sid=\"%4\"/></iq>")
+                                .arg(SJID, RJID, QLatin1String(NS_IBB), sidStr));
+            std::string rp;
+            for (auto &x : W->s.out) {
+                QDomDocument doc;
+                QDomElement e = parseStanza(x, doc);
+                if (!rp.empty()) rp += ",";
+                QDomElement er = e.firstChildElement(QStringLiteral("error"));
+                rp += e.attribute(QStringLiteral("type")) == QLatin1String("result") ? "ok" : "e:" + er.firstChildElement().tagName().toStdString();
+            }
+            W->s.out.clear();
+            otherOps++;
+            std::string o = observe();
+            return "s:" + rp + o.substr(o.find('|'));
         } else if (w == "drop") {
             if (pending) { Ibb p = *pending; pending.reset(); toSender(forgedAck(p)); if (onData) faults++; }
         } else if (w == "dup") {
@@ -509,13 +569,17 @@ struct Transfer {
             else if (kind == "data") {
                 std::string hx; is >> c.seq >> hx; c.kind = Ibb::Data;
                 if (hx != "-") c.payload = QByteArray::fromHex(QByteArray::fromStdString(hx));
+            } else if (kind == "rawdata") {
+                std::string hx; is >> c.seq >> hx; c.kind = Ibb::Data; c.raw = true;
+                if (hx != "-") c.rawText = QString::fromLatin1(QByteArray::fromHex(QByteArray::fromStdString(hx)));
             } else c.kind = Ibb::Close;
             feed(toReceiver(c));
             if (c.sender != 0 || c.sid != 0) foreignInj++;  // somebody else's stanza: must not disturb the transfer
             else otherOps++;                                // forged in the sender's name: only oracle 1 applies
             if (c.sender == 0 && c.sid == 0 && c.kind == Ibb::Data) altered = true;
         }
-        if (w != "deliver" && w != "inj" && faults + harmlessDups == faultsBefore) otherOps++;
+        if (faults > faultsOnlyBefore) faultKind = w;
+        if (w != "deliver" && w != "deliverws" && w != "inj" && faults + harmlessDups == faultsBefore) otherOps++;
         return observe();
     }
 
@@ -540,7 +604,7 @@ static std::string contentSpec(const std::string &kind, const QByteArray &d)
 }
 
 // ------------------------------------------------------------------------------------------------ running + judging
-struct Case { int bsS, bsR; bool hash; std::string kind; QByteArray data; std::vector<std::string> ops; bool finishHonestly = true; DevSpec dev; };
+struct Case { int bsS, bsR; bool hash; std::string kind; QByteArray data; std::vector<std::string> ops; bool finishHonestly = true; DevSpec dev; bool announceSize = true; };
 
 static long long totalOps = 0;
 
@@ -548,28 +612,43 @@ static long long totalOps = 0;
 //  (1) whenever the receiving job is finished without error, the receiver's device holds exactly the sender's bytes;
 //  (2) no fault at all  ⇒ both jobs finish without error and the bytes are identical;
 //  (3) exactly one fault that hit a data block (lost / reordered / altered / mislabelled / stream cut short) and an honest
-//      channel otherwise ⇒ the receiving job never reports success.  A duplicated block is judged by (1) plus "the copy is
-//      refused and not written": the code answers the copy with <unexpected-request/>, does not write it, and the transfer
-//      completes with identical bytes (theorem duplicate_is_refused_and_harmless) — read as satisfying the property.
+//      channel otherwise ⇒ the receiving job never reports success, AND, once the honest remainder of the exchange has
+//      been delivered, it HAS FINISHED with FileCorruptError or ProtocolError (a job that just sits in TransferState does
+//      not "report a corruption or protocol error").  A duplicated block is judged by (1) plus "the copy is refused and not
+//      written": the code answers the copy with <unexpected-request/>, does not write it, and the transfer completes with
+//      identical bytes (theorem duplicate_is_refused_and_harmless) — read as satisfying the property.
+//  (4) stanzas of other JIDs / other sessions do not disturb the transfer;
+//  (5) sending side: an error response of the peer to the request in flight ends the sending job with an error; responses
+//      from other JIDs or to older requests do not move it.
 static void judge(Transfer &t, const Case &c, const std::string &replay)
 {
     const long long blocks = c.bsS > 0 ? (c.data.size() + c.bsS - 1) / c.bsS : 0;
+    if (t.senderIgnoredError) oracleFail("C19:sender-ignores-error-response", replay);
+    if (t.senderMovedOnForeignAck) oracleFail("C19:sender-moves-on-foreign-or-stale-response", replay);
     if (t.sawRSuccessWrong) {
-        // known limit: no hash announced AND the content was altered/forged indistinguishably for the receiver
-        oracleFail(!c.hash && t.altered ? "C19:nohash-altered-accepted" : "C19:success-with-different-bytes", replay);
+        // recorded limits: nothing announced to check against
+        const char *key = !c.hash && t.altered ? "C19:nohash-altered-accepted"                      // altered/forged, no hash announced
+            : !c.hash && !c.announceSize ? "C19:nosize-nohash-truncated-accepted"                  // neither size nor hash announced
+            : !c.announceSize && t.sink.lossy() ? "C19:nosize-short-write-accepted"                // hash covers offered bytes only
+            : "C19:success-with-different-bytes";
+        oracleFail(key, replay);
         return;
     }
     if (t.faults == 0 && t.harmlessDups == 0 && t.otherOps == 0 && c.bsS <= c.bsR && c.bsS > 0 && !t.sink.lossy()) {
-        // (4) stanzas of other JIDs (another account, another resource of the same account, the bare JID, a case variant,
-        //     a look-alike domain) or for other session ids are not part of the transfer: the outcome is the honest one
         if (t.rSuccess() && t.sSuccess() && t.sink.held() == c.data) oraclePass()++;
         else oracleFail(t.foreignInj > 0 ? "C19:foreign-stanza-disturbs-transfer"
                         : blocks > 65536 ? "C19:ibb-seq-wrap" : "C19:honest-run-not-successful", replay);
         return;
     }
     if (t.faults == 1 && t.harmlessDups == 0 && t.otherOps == 0) {
+        const bool reported = t.rj->state() == QXmppTransferJob::FinishedState &&
+            (t.rj->error() == QXmppTransferJob::FileCorruptError || t.rj->error() == QXmppTransferJob::ProtocolError);
         if (t.rSuccess()) oracleFail("C19:fault-but-success", replay);
-        else oraclePass()++;
+        else if (!reported) {
+            // the block (or the answer to it) vanished and nothing follows: the library has no timeout, both jobs wait forever
+            const bool silent = t.faultKind == "lose" || t.faultKind == "wsender";
+            oracleFail(silent ? "C19:lost-stanza-hangs-forever" : "C19:fault-without-error-report", replay);
+        } else oraclePass()++;
         return;
     }
     if (t.faults == 0 && t.harmlessDups == 1 && t.otherOps == 0 && c.bsS <= c.bsR && !t.sink.lossy()) {
@@ -578,13 +657,15 @@ static void judge(Transfer &t, const Case &c, const std::string &replay)
         else oracleFail("C19:duplicate-not-refused", replay);
         return;
     }
-    oraclePass()++;  // several faults / injected foreign stanzas: oracle (1) was the claim, it held
+    oraclePass()++;  // several faults / forged stanzas / sender-side ops: oracles (1) and (5) were the claims, they held
 }
 
 static void runCase(const Case &c)
 {
     Transfer t(c.bsS, c.bsR, c.hash, c.data, c.dev);
-    const std::string reset = "reset ibb " + std::to_string(c.bsS) + " " + std::to_string(c.bsR) + " " + (c.hash ? "1" : "0") + " " + c.dev.str() + " " +
+    t.withSize = c.announceSize;
+    const std::string reset = "reset ibb " + std::to_string(c.bsS) + " " + std::to_string(c.bsR) + " " + (c.hash ? "1" : "0") + " " +
+        (c.announceSize ? "1" : "0") + " " + c.dev.str() + " " +
         contentSpec(c.kind, c.data);
     printf("I %s\n", reset.substr(0, 200).c_str());
     fflush(stdout);
@@ -791,9 +872,10 @@ int main(int argc, char **argv)
             }
         }
     }
-    // ---- 1b. exhaustive: every op sequence up to a depth over a 9-symbol alphabet on a 2-block file, then honest to the end
+    // ---- 1b. exhaustive: every op sequence up to a depth over an 11-symbol alphabet on a 2-block file, then honest to the end
     {
-        const std::vector<std::string> alpha = { "deliver", "drop", "dup", "swap", "flip 9", "eclose", "wsid", "wsender", "inj 0 0 data 1 ee" };
+        const std::vector<std::string> alpha = { "deliver", "drop", "dup", "swap", "flip 9", "eclose", "wsid", "wsender", "inj 0 0 data 1 ee",
+                                                 "lose", "rinj 0 0 item-not-found" };
         const int depth = thorough ? 4 : 3;
         const QByteArray d = QByteArray::fromHex("a1b2c3");
         for (int hash = 1; hash >= 0; hash--) {
@@ -878,6 +960,93 @@ int main(int argc, char **argv)
             }
         }
     }
+    // ---- 1e. offers without a size attribute (source of unknown length), with and without hash; lossy devices on top
+    {
+        std::vector<std::string> fo = faultOps; fo.push_back("lose");
+        for (int b : { 1, 2, 16 }) {
+            for (long n : { 1L, long(b), b + 1L, 3L * b + 2 }) {
+                QByteArray d = makeContent("rnd", n, rng);
+                const long blocks = (n + b - 1) / b;
+                for (int hash = 1; hash >= 0; hash--) {
+                    Case c { b, 4096, hash == 1, "rnd", d, {} };
+                    c.announceSize = false;
+                    runCase(c);
+                    for (long pos = 0; pos < blocks + 2; pos++)
+                        for (auto &f : fo) {
+                            if (f.rfind("wsender ", 0) == 0) continue;
+                            Case cf = c;
+                            for (long k = 0; k < pos; k++) cf.ops.push_back("deliver");
+                            cf.ops.push_back(f == "flip" ? "flip " + std::to_string(rng.below(1 << 16)) : f);
+                            runCase(cf);
+                            stat("nosize_cases");
+                        }
+                    for (DevSpec dev : { DevSpec { DevSpec::PerWrite, 1 }, DevSpec { DevSpec::Full, n - 1 }, DevSpec { DevSpec::Fail, n - 1 }, DevSpec { DevSpec::Full, n } }) {
+                        Case cd = c; cd.dev = dev; runCase(cd); stat("nosize_cases");
+                    }
+                }
+            }
+        }
+    }
+    // ---- 1f. a block (or the answer to it) is lost and nothing follows; the same with the stream then closed
+    for (int b : { 1, 2, 16 }) {
+        for (long n : { 1L, b + 1L, 3L * b + 2 }) {
+            QByteArray d = makeContent("rnd", n, rng);
+            const long blocks = (n + b - 1) / b;
+            for (int hash = 1; hash >= 0; hash--)
+                for (long pos = 1; pos <= blocks; pos++) {
+                    Case c { b, 4096, hash == 1, "rnd", d, {} };
+                    for (long k = 0; k < pos; k++) c.ops.push_back("deliver");
+                    c.ops.push_back("lose");
+                    runCase(c);
+                    c.ops.push_back("eclose");
+                    runCase(c);
+                    stat("lost_cases", 2);
+                }
+        }
+    }
+    // ---- 1g. sending side: responses that are errors, stale, duplicated or from somebody else; the peer closes first
+    {
+        const std::vector<std::string> sops = { "rinj 0 0 item-not-found", "rinj 0 0 unexpected-request", "rinj 0 1 ok", "rinj 0 1 item-not-found",
+                                                "rinj 2 0 ok", "rinj 1 0 item-not-found", "rinj 3 0 ok", "rinj 0 0 ok", "rinj 0 7 ok", "pclose" };
+        for (int b : { 1, 2, 16 }) {
+            for (long n : { 0L, 1L, b + 1L, 3L * b + 2 }) {
+                QByteArray d = makeContent("rnd", n, rng);
+                const long blocks = (n + b - 1) / b;
+                for (long pos = 0; pos < blocks + 2; pos++)
+                    for (auto &so : sops) {
+                        Case c { b, 4096, true, "rnd", d, {} };
+                        for (long k = 0; k < pos; k++) c.ops.push_back("deliver");
+                        c.ops.push_back(so);
+                        runCase(c);
+                        stat("sender_side_cases");
+                    }
+            }
+        }
+    }
+    // ---- 1h. the text of a <data/> element: base64 broken up by white space (honest), and forged elements whose text has
+    //          invalid characters, misplaced padding, a truncated quantum (QByteArray::fromBase64 skips what it does not know)
+    {
+        for (int b : { 2, 16 }) {
+            QByteArray d = makeContent("rnd", 3L * b + 2, rng);
+            for (int hash = 1; hash >= 0; hash--) {
+                Case c { b, 4096, hash == 1, "rnd", d, {} };
+                c.finishHonestly = false;
+                for (int k = 0; k < 6; k++) c.ops.push_back("deliverws");
+                runCase(c);
+                const QByteArray b0 = d.left(b).toBase64();
+                std::vector<QByteArray> texts = { b0, " " + b0 + "\n", b0.left(2) + "!*#" + b0.mid(2), b0.left(b0.size() - 1), "=" + b0, b0 + b0,
+                                                  QByteArray("===="), QByteArray("A"), QByteArray("not base64 at all") };
+                for (auto &tx : texts) {
+                    Case cr { b, 4096, hash == 1, "rnd", d, { "deliver", "inj 0 0 rawdata 0 " + hex((const unsigned char *)tx.constData(), tx.size()) } };
+                    runCase(cr);
+                    stat("base64_text_cases");
+                }
+                // a block larger than the negotiated block size (the code does not check)
+                Case big { b, 4096, hash == 1, "rnd", d, { "deliver", "inj 0 0 data 0 " + hex((const unsigned char *)d.constData(), 2 * b + 1) } };
+                runCase(big);
+            }
+        }
+    }
     // ---- 2. block-size negotiation: the receiver refuses a larger block size than its own
     for (auto [bS, bR] : std::vector<std::pair<int, int>> { { 16, 8 }, { 8, 8 }, { 4096, 4095 }, { 1, 1 }, { 0, 16 } }) {
         runCase({ bS, bR, true, "rnd", makeContent("rnd", 20, rng), {} });
@@ -896,6 +1065,7 @@ int main(int argc, char **argv)
             else if (k == 1) c.dev = { DevSpec::Full, long(rng.below(uint32_t(n + 3))) };
             else c.dev = { DevSpec::Fail, long(rng.below(uint32_t(n + 3))) };
         }
+        if (rng.below(6) == 0) c.announceSize = false;
         const int len = 1 + rng.below(thorough ? 14 : 9);
         for (int j = 0; j < len; j++) {
             const uint32_t r = rng.below(100);
@@ -908,6 +1078,10 @@ int main(int argc, char **argv)
             else if (r < 78) op = "eclose";
             else if (r < 83) op = "wsid";
             else if (r < 86) op = "wsender " + std::to_string(1 + rng.below(5));
+            else if (r < 88) op = "lose";
+            else if (r < 91) op = "rinj " + std::to_string(rng.below(3)) + " " + std::to_string(rng.below(3)) + (rng.below(2) ? " ok" : " item-not-found");
+            else if (r < 92) op = "pclose";
+            else if (r < 93) op = "deliverws";
             else {
                 // injected stanza: mostly from a third party or for another session, sometimes a forgery in the sender's name
                 const int sender = rng.below(4) == 0 ? 0 : 1 + int(rng.below(5)), sid = rng.below(3) == 0 ? 1 : 0;
